@@ -301,15 +301,36 @@ def loop5(iv: int, t0: float, now: bool, wc: bool, b0: int, b1: int, b2: int,
 
 def _shards(nadv):
     def mk(tier):
-        out = []
-        for iv in range(5):
+        def sh(iv, *conds):
             I = IVS[iv]
             # times bounded in units of the interval (keeps z3's integer reasoning about `%`/int() finite):
             # start time <= 4 intervals, every advance <= 5 intervals
             bnd = ["t0 <= %r" % (4 * I,)] + ["a%d <= %r" % (j + 1, 5 * I) for j in range(nadv)]
+            return tuple(["iv == %d" % iv] + list(conds) + bnd)
+        ret0 = "b0 == 0 and b1 == 0 and b2 == 0"
+        top = nadv + 3          # splace: 0..2 inside call k, 3 after start(), 4.. after advance j
+        groups = ["splace <= 2", "3 <= splace <= 4", "splace >= 5"]
+        out = []
+        for iv in range(5):
             for wc in ("wc", "not wc"):
-                for sop in range(3):
-                    out.append(tuple(["iv == %d" % iv, wc, "sop == %d" % sop] + bnd))
+                # A: every interval, all function behaviours, no stop/reset
+                out.append(sh(iv, wc, "sop == 0"))
+                if tier == "quick":
+                    # B: every interval, top-level reset() (moves the grid), function always returns
+                    out.append(sh(iv, wc, "sop == 2", "splace >= 3", ret0))
+                else:
+                    for g in groups:
+                        out.append(sh(iv, wc, "sop == 1", g))
+                        out.append(sh(iv, wc, "sop == 2", g))
+        if tier == "quick":
+            # C/D: stop() and reset() at every place x all function behaviours: interval-independent logic,
+            # run for two of the intervals
+            for iv, wc in ((0, "wc"), (3, "not wc"), (3, "wc"), (0, "not wc")):
+                out.append(sh(iv, wc, "sop == 1", "splace <= 3"))
+                out.append(sh(iv, wc, "sop == 1", "splace >= 4"))
+            for iv, wc in ((0, "wc"), (4, "not wc")):
+                for g in groups:
+                    out.append(sh(iv, wc, "sop == 2", g))
         return out
     return mk
 
